@@ -778,7 +778,25 @@ func c03Restamp(c *Ctx) {
 		}
 		// every member of the re-stamp family is framed by the send path, oldest first: what one member put on
 		// the wire must not leak into what another does (shared lazy state; after seeded change C03b-2)
-		for hi, h := range append([]hsms.Message{k.base}, holders...) {
+		// first the buffers of ALL members are built (as overlapping senders do: writeFrame builds the frame before it
+		// takes the write lock), only then are they read: a prefix kept in storage the copies share would be
+		// overwritten by the later builds (after seeded change C03c-1)
+		fam := append([]hsms.Message{k.base}, holders...)
+		built := make([][][]byte, len(fam))
+		for hi, h := range fam {
+			built[hi] = hsms.VerifFrameBuffersRaw(h)
+		}
+		for hi, h := range fam {
+			var cat []byte
+			for _, b := range built[hi] {
+				cat = append(cat, b...)
+			}
+			if !bytes.Equal(cat, h.ToBytes()) {
+				c.Violate("property", "wire-differs-from-tobytes", fmt.Sprintf("frame buffers of member %d of a re-stamp family, read after the buffers of the whole family were built, differ from its ToBytes", hi), replay)
+				break
+			}
+		}
+		for hi, h := range fam {
 			if !bytes.Equal(hsms.VerifFrameBytes(h), h.ToBytes()) {
 				c.Violate("property", "wire-differs-from-tobytes", fmt.Sprintf("buildFrameBuffers of member %d of a re-stamp family differs from its ToBytes (after the earlier members were framed)", hi), replay)
 				break
